@@ -460,6 +460,26 @@ pub mod gen {
                 ops.push(Op::new("ctor").u("a", idx * per).u("n", per));
                 let _ = ExtTable::default();
             }
+            "C15" if idx % 40 == 3 => {
+                // counter run: a maximum N, then N+300 consecutive sends of one label with nothing in between
+                // but (sometimes) failing calls; N = 255 exercises the wrap of the 8-bit counter
+                let n = *rng.pick(&[255u64, 255, 254, 1, 2, 3, 100]);
+                let fav = *rng.pick(&ALPHABET[..4]);
+                if rng.chance(1, 3) {
+                    ops.push(enc(3, 1, 0x0800, &fav, 1, 64, None));
+                }
+                ops.push(Op::new("max").u("n", n));
+                let with_fail = rng.chance(1, 3);
+                let via_ext = rng.chance(1, 4);
+                let e = [fg::opt_ext(rng)];
+                for i in 0..(n as usize + 300) {
+                    let use_ext = via_ext && (i % 3 != 0);
+                    ops.push(enc(rng.usize_in(0, 4), rng.next(), 0x0800, &fav, 1, 64, if use_ext { Some(&e) } else { None }));
+                    if with_fail && rng.chance(1, 50) {
+                        ops.push(enc(70_000, 1, 0x0800, &fav, 1, 64, None));
+                    }
+                }
+            }
             "C15" => {
                 let long = rng.chance(1, 25);
                 let n = if long { rng.usize_in(300, 900) } else { rng.usize_in(3, 50) };
